@@ -187,9 +187,42 @@ def load_known():
         return json.load(f)
 
 
+def second_solver(rep):
+    """thorough tier: the sampled SMT-LIB2 queries are decided again by /usr/bin/z3 (4.8.12) and cvc5"""
+    import glob
+    import subprocess
+
+    d = os.environ.get("VERIF_DUMP_SMT")
+    if not d or not os.path.isdir(d):
+        return
+    files = sorted(glob.glob(os.path.join(d, "*.smt2")))[:12]
+    out = dict(files=len(files), z3_4_8_12=dict(unsat=0, unknown=0, sat=0, error=0), cvc5=dict(unsat=0, unknown=0, sat=0, error=0))
+    for f in files:
+        for name, cmd in (("z3_4_8_12", ["/usr/bin/z3", "-T:20", f]), ("cvc5", ["cvc5", "--tlimit=20000", f])):
+            try:
+                r = subprocess.run(cmd, capture_output=True, text=True, timeout=40)
+                txt = (r.stdout + r.stderr).strip()
+                first = txt.splitlines()[0].strip() if txt else ""
+                if "(error" in txt or first not in ("sat", "unsat", "unknown", "timeout"):
+                    out[name]["error" if "(error" in txt else "unknown"] += 1
+                elif first == "unsat":
+                    out[name]["unsat"] += 1
+                elif first == "sat":
+                    out[name]["sat"] += 1
+                    rep.errors.append(f"second solver {name} answers sat where z3 5.1 answered unsat: {os.path.basename(f)}")
+                else:
+                    out[name]["unknown"] += 1
+            except Exception:
+                out[name]["unknown"] += 1
+    out["note"] = "unknown/error = inconclusive (unsupported construct or 20 s limit), never counted as agreement; a 'sat' is an engine error"
+    rep.second_solver = out
+
+
 def finish(rep):
     """Writes the evidence file, prints the verdict lines, returns the exit code."""
     ctx = rep.ctx
+    if ctx.tier == "thorough":
+        second_solver(rep)
     known = load_known()
     known_sigs = {(k["property"], k["signature"]): k for k in known.get("findings", [])}
     new, listed = [], []
